@@ -34,9 +34,11 @@ Drift(r) ==
     ELSE "ok"
 
 TRun(r) ==
-    LET bad == FailedClauses(PArgs(r), r.steps, SetOf(r.rep), r.ok) IN
-    IF bad # {} THEN Say(r.id, FirstClause(bad), Mask(bad))
-    ELSE IF ~ListedOK(r) THEN Say(r.id, "sys.listed_eq_written", 64)
+    LET bad == FailedClauses(PArgs(r), r.steps, SetOf(r.rep), r.ok)
+        lst == IF ListedOK(r) THEN 0 ELSE 64      \* every failed clause is in the mask: each has an owner of its own
+    IN
+    IF bad # {} THEN Say(r.id, FirstClause(bad), Mask(bad) + lst)
+    ELSE IF lst # 0 THEN Say(r.id, "sys.listed_eq_written", 64)
     ELSE IF Drift(r) # "ok" THEN Say(r.id, Drift(r), 0)
     ELSE TRUE
 
